@@ -4,7 +4,15 @@ import AwModel.Store.Spec
 # Memory backend refines the list model
 
 `Inv` : bucket keys pairwise distinct; in every bucket all events carry an id and the ids are
-pairwise distinct (memory ids are per bucket).
+pairwise distinct (memory ids are per bucket). `view s = lookup s`, and every write is a `setKey`
+or a key filter, so each operation reads back as the pointwise `Spec` operation
+(`view_setKey`, `view_filter`, `view_onEvents`).
+
+The requested two-fold form of `insert_many` is FALSE of the model (`insertMany_view_false`): an
+event of the batch may carry the id that an earlier event of the same batch was just given.
+`insertMany_view_seq` is the unconditional (interleaved) refinement, `insertMany_view_cond` the
+two-fold form under exactly the non-collision condition, `insertMany_view_partial` under the
+hypothesis that carried ids already exist in the bucket.
 -/
 namespace Aw.Store.Memory
 open Aw Aw.Store
@@ -1024,5 +1032,70 @@ theorem insertMany_missing {s : St D} {b : String} (h : Inv s) (hb : view s b = 
     (e : Ev D) (es : List (Ev D)) : insertMany s b (e :: es) = .error .keyError := by
   unfold insertMany
   rw [insertOne_missing h hb]
+
+/-! ## the two-fold form of `insert_many` is false without the extra hypothesis
+
+An empty bucket and the batch `[event without id, event carrying id 0]`: the first event is stored
+under the fresh id 0 and the second event then REPLACES it; in the two-fold form the replace of
+id 0 runs first (on the empty list, a no-op) and the first event survives. -/
+
+def cexMeta : Meta := ⟨none, "t", "c", "h", "2020", "{}"⟩
+def cexSt : St Nat := createBucket [] "b" cexMeta
+def cexNew : Ev Nat := ⟨none, 0, 0, 1⟩
+def cexCarry : Ev Nat := ⟨some 0, 0, 0, 2⟩
+
+/-- what the model does on the witness -/
+example : insertMany cexSt "b" [cexNew, cexCarry] =
+    .ok [("b", (storedMeta "b" cexMeta, [⟨some 0, 0, 0, 2⟩]))] := rfl
+
+theorem insertMany_view_false :
+    ¬ ∀ (s s' : St Nat) (b : String) (es : List (Ev Nat)), Inv s → (view s b).isSome →
+        insertMany s b es = .ok s' →
+        ∃ ids : List Int, ids.length = (es.filter (·.id.isNone)).length ∧ ids.Nodup ∧
+          (∀ i ∈ ids, i ∉ Spec.ids (view s) b) ∧
+          view s' =
+            ((es.filter (·.id.isNone)).zip ids).foldl (fun v p => Spec.insert v b p.2 p.1)
+              ((es.filter (·.id.isSome)).foldl
+                (fun v e => Spec.replaceId v b (e.id.getD 0) e) (view s)) := by
+  intro H
+  obtain ⟨ids, hlen, _, _, hv⟩ :=
+    H cexSt [("b", (storedMeta "b" cexMeta, [⟨some 0, 0, 0, 2⟩]))] "b" [cexNew, cexCarry]
+      (createBucket_inv inv_init _ _) rfl rfl
+  match ids, hlen with
+  | [j], _ =>
+    have := congrFun hv "b"
+    simp [view, lookup, cexSt, cexNew, cexCarry, createBucket, setKey, Spec.insert, Spec.replaceId,
+      Spec.onEvents, Spec.setB] at this
+
+/-! ## the hypotheses are satisfiable: a concrete state with two buckets (ids are per bucket) -/
+
+def exMeta : Meta := ⟨some "n", "t", "c", "h", "2020", "{}"⟩
+def exEvs : List (Ev Nat) := [⟨some 0, 5, 1, 20⟩, ⟨some 1, 9, 1, 21⟩, ⟨some 2, 9, 0, 22⟩]
+def exSt : St Nat := [("a", (exMeta, [⟨some 0, 1, 1, 10⟩])), ("b", (exMeta, exEvs))]
+
+theorem exSt_inv : Inv exSt := by
+  simp [Inv, EvsOk, exSt, exEvs]
+
+example : Inv exSt ∧ view exSt "b" = some (exMeta, exEvs) ∧ exEvs ≠ [] :=
+  ⟨exSt_inv, rfl, by simp [exEvs]⟩
+example : Inv exSt ∧ view exSt "zz" = none := ⟨exSt_inv, rfl⟩
+/-- `create_bucket` on an existing bucket replaces and empties it; a falsy name defaults to the id -/
+example : view (createBucket exSt "b" { exMeta with name := some "" }) "b" =
+    some ({ exMeta with name := some "b" }, []) := rfl
+example : ∃ s', updateBucket exSt "b" { name := some "x", type := some "" } = .ok s' := ⟨_, rfl⟩
+example : ∃ s', deleteBucket exSt "a" = .ok s' := ⟨_, rfl⟩
+example : (⟨none, 7, 1, 30⟩ : Ev Nat).id = none ∧
+    ∃ s', insertOne exSt "b" ⟨none, 7, 1, 30⟩ = .ok (s', some 3) := ⟨rfl, _, rfl⟩
+example : ∃ s', insertOne exSt "a" ⟨none, 7, 1, 30⟩ = .ok (s', some 1) := ⟨_, rfl⟩
+example : (∃ s', replace exSt "b" 1 ⟨none, 7, 1, 30⟩ = .ok s') ∧
+    (∃ s', replace exSt "a" 2 ⟨some 5, 7, 1, 30⟩ = .ok s') := ⟨⟨_, rfl⟩, ⟨_, rfl⟩⟩
+example : (∃ s', delete exSt "b" 1 = .ok (s', true)) ∧ (∃ s', delete exSt "a" 1 = .ok (s', false)) :=
+  ⟨⟨_, rfl⟩, ⟨_, rfl⟩⟩
+example : getEvents exSt "b" 1 none none = .ok [⟨some 2, 9, 0, 22⟩] := rfl
+example : (view exSt "b").isSome ∧
+    (∃ s', insertMany exSt "b" [⟨none, 7, 1, 30⟩, ⟨some 1, 8, 1, 31⟩, ⟨none, 7, 1, 32⟩] = .ok s') ∧
+    (∀ e ∈ ([⟨none, 7, 1, 30⟩, ⟨some 1, 8, 1, 31⟩, ⟨none, 7, 1, 32⟩] : List (Ev Nat)),
+      ∀ i, e.id = some i → i ∈ Spec.ids (view exSt) "b") :=
+  ⟨rfl, ⟨_, rfl⟩, by simp [Spec.ids, view, lookup, exSt, exEvs]⟩
 
 end Aw.Store.Memory
